@@ -364,10 +364,14 @@ pub mod proofs {
             wait_and_drain(&mut d);
         }
         assert!(!unreported(), "C09: a delivered signal was not obtained by a consumer that keeps waiting and draining");
+        // a later delivery, after the consumer has caught up: it must be woken and obtain it too
+        full_delivery();
+        wait_and_drain(&mut d);
+        assert!(!unreported(), "C09: a later delivery was not obtained by a consumer that keeps waiting and draining");
         assert!(unsafe { I::yielded_other } == 0, "C10: the iterator yielded a signal it was not asked to watch");
         assert!(unsafe { I::yielded_sa } <= unsafe { X::deliveries_done }, "C10: the iterator has yielded a signal more often than it was delivered");
         kani::cover!(spurious && vshim::interrupts_taken() == 1 && first == 0, "delivery landed after the scan had passed its slot");
-        kani::cover!(!spurious && unsafe { X::deliveries_done } == 2, "two deliveries, one nested");
+        kani::cover!(!spurious && unsafe { X::deliveries_done } == 3, "three deliveries, one nested");
         core::mem::forget((d, h));
     }
 
@@ -526,6 +530,44 @@ pub mod proofs {
     }
 
 
+    /// C11 through the real front-end object (`SignalsInfo::wait` / `forever` /
+    /// `is_closed`), sequentially: after close() returned every wait returns, also
+    /// once the wake-up byte of close() has been consumed.
+    #[kani::proof]
+    #[kani::stub(core::fmt::write, crate::common::no_fmt_write)]
+    #[kani::unwind(6)]
+    pub fn c11_seq_frontend_wait_after_close() {
+        reg::init_globals();
+        let s = ok(Signals::new(&[SA]));
+        assert!(s.is_some(), "C11: constructing Signals failed");
+        let mut s = s.unwrap();
+        let h = s.handle();
+        unsafe { vshim::HOOKS.block = block_hook_nest };
+        h.close();
+        unsafe { X::closed_done = true };
+        assert!(h.is_closed() && s.is_closed(), "C11: is_closed() is false after close() returned");
+        let mut n = 0;
+        for sig in s.wait() {
+            note(sig);
+            n += 1;
+        }
+        for sig in s.wait() {
+            note(sig);
+            n += 1;
+        }
+        for sig in s.pending() {
+            note(sig);
+            n += 1;
+        }
+        for sig in s.wait() {
+            note(sig);
+            n += 1;
+        }
+        assert!(n == 0, "C10: a signal was reported although none was delivered");
+        kani::cover!(unsafe { I::consumer_blocked } == 0, "three waits and a pending() after close() returned without sleeping");
+        core::mem::forget((s, h));
+    }
+
     /// C10 (sequential): a burst of deliveries, batches: never more yields than
     /// deliveries, a burst collapses to one report, a reported delivery is not
     /// reported again, a later delivery is.
@@ -600,7 +642,8 @@ pub mod proofs {
         let p = ok(UnixStream::pair());
         assert!(p.is_some(), "C10: pair failed");
         let (r, w) = p.unwrap();
-        let d = ok(SignalDelivery::with_pipe(r, w, WithRawSiginfo::default(), &[SA]));
+        // (the list names the signal twice: the second mention must be a no-op)
+        let d = ok(SignalDelivery::with_pipe(r, w, WithRawSiginfo::default(), &[SA, SA]));
         assert!(d.is_some(), "C10: constructing the signal delivery failed");
         let mut d = d.unwrap();
         let codes: [i32; NREC] = kani::any();
@@ -620,20 +663,24 @@ pub mod proofs {
         assert!(got <= NREC, "C10: the iterator has yielded a signal more often than it was delivered");
         assert!(got >= 1, "C09: deliveries happened, the consumer drained, and nothing was reported");
         assert!(raw_batch(&mut d, NREC, &mut next, &codes, &pays) == 0, "C10: a delivery was reported again by a later batch");
-        kani::cover!(early != 0 || got == 5, "burst longer than the per-signal buffer: 5 records kept");
-        kani::cover!(early != 3 || got == 7, "all seven records obtained in two batches");
+        let want = match early {
+            0 => 5, // burst longer than the per-signal buffer
+            3 => 7, // nothing dropped
+            _ => 6, // the sixth delivery of the first burst found the buffer full
+        };
+        kani::cover!(got == want, "records obtained: burst of 7 -> 5 kept; 3 then 4 -> all 7; 6 then 1 -> 6");
         kani::cover!(unsafe { L::n } == 1, "the unwatched signal was delivered (to its own action only)");
         core::mem::forget(d);
     }
     // a delivery nested inside the consumer's first load of a batch, buffer full
-    static mut RAW_GOT: usize = 0;
-    static mut RAW_WINDOW: usize = 0; // the nested delivery lands while this many records have been obtained
     static mut RAW_NESTED: bool = false;
     static mut RAW_CODE: i32 = 0;
     static mut RAW_PAY: u64 = 0;
-    fn interrupt_with_raw_delivery(_kind: u8, _var: usize) {
+    fn interrupt_with_raw_delivery(kind: u8, _var: usize) {
         unsafe {
-            if RAW_GOT != RAW_WINDOW || !vshim::any_bool() {
+            // the boundaries at which the record cell and the queues are mid-update:
+            // before each cell access and right after each successful CAS
+            if !(kind == vshim::OP_CELL || kind == vshim::OP_AFTER_CAS) || !vshim::is_nth_point() {
                 return;
             }
             vshim::consume_interrupt();
@@ -651,17 +698,17 @@ pub mod proofs {
             vshim::delivery_exit();
         }
     }
-    /// Five deliveries fill the per-signal buffer; a sixth lands at any shim point
-    /// of the consumer's first load (channel words, cell, slot pointer): records
-    /// stay faithful, in delivery order, at most one per delivery.
+    /// Five deliveries fill the per-signal buffer; a sixth lands at each of the
+    /// first 7 cell-access / after-successful-CAS boundaries of the following batch
+    /// in turn (the point index is a concrete loop counter, payloads are
+    /// symbolic): records stay faithful, in delivery order, at most one per
+    /// delivery, none invented.  (Interruptions before the other shim operations
+    /// of a recv are covered on the channel level by the C08 harnesses.)
     #[kani::proof]
     #[kani::stub(core::fmt::write, crate::common::no_fmt_write)]
-    #[kani::unwind(11)]
-    pub fn c10_nest_raw_delivery_inside_load() {
-        raw_delivery_inside_load(0);
-    }
-    fn raw_delivery_inside_load(window: usize) {
-        unsafe { RAW_WINDOW = window };
+    #[kani::unwind(12)]
+    pub fn c10_enum_raw_delivery_inside_batch() {
+        const MAXP: usize = 7;
         reg::init_globals();
         let arcs_before = libc::vshim::sync::arcs_created();
         let p = ok(UnixStream::pair());
@@ -670,38 +717,67 @@ pub mod proofs {
         let d = ok(SignalDelivery::with_pipe(r, w, WithRawSiginfo::default(), &[SA]));
         assert!(d.is_some(), "C10: constructing the signal delivery failed");
         let mut d = d.unwrap();
-        let mut codes: [i32; NREC] = kani::any();
-        let mut pays: [u64; NREC] = kani::any();
+        let codes: [i32; NREC] = kani::any();
+        let pays: [u64; NREC] = kani::any();
         unsafe {
             X::action = libc::vshim::sync::action_by_arc_id(arcs_before);
             assert!(X::action.is_some(), "C10: add_signal did not register an action for the watched signal");
             RAW_CODE = codes[5];
             RAW_PAY = pays[5];
             vshim::HOOKS.interrupt = interrupt_with_raw_delivery;
+            vshim::ST::nest_post_points = true;
         }
-        let mut i = 0;
-        while i < 5 {
-            raw_delivery(i, codes[i], pays[i]);
-            i += 1;
+        let mut found_freed_slot = false;
+        let mut found_full = false;
+        let mut all_points = false;
+        let mut pt = 0;
+        while pt <= MAXP {
+            unsafe {
+                RAW_NESTED = false;
+                K::fds[PAIR_WRITE as usize].fill = 0;
+            }
+            let mut i = 0;
+            while i < 5 {
+                raw_delivery(i, codes[i], pays[i]);
+                i += 1;
+            }
+            let mut next = 0;
+            let mut got = 0;
+            vshim::enumerate(if pt == MAXP { usize::MAX - 1 } else { pt }, usize::MAX - 1);
+            vshim::set_mode_nest(1, 1, 0);
+            for rec in d.pending() {
+                let serial = rec.si_errno as usize;
+                assert!(rec.si_signo == SA, "C10: the iterator yielded a signal it was not asked to watch");
+                assert!(serial < 5 || (serial == 5 && unsafe { RAW_NESTED }), "C10: a record was yielded that no delivery so far produced");
+                assert!(serial >= next, "C10: records of one signal came out of delivery order, or one delivery yielded two records");
+                let pay = unsafe { *((&rec as *const siginfo_t as *const u8).add(16) as *const u64) };
+                assert!(rec.si_code == codes[serial] && pay == pays[serial], "C10: a yielded record is not a faithful copy of its delivery's information");
+                next = serial + 1;
+                got += 1;
+            }
+            vshim::set_mode_seq();
+            assert!(got >= 5, "C09: a record whose delivery completed before the batch was not obtained");
+            if unsafe { RAW_NESTED } && got == 6 {
+                found_freed_slot = true;
+            }
+            if unsafe { RAW_NESTED } && got == 5 {
+                found_full = true;
+            }
+            // whatever the nested delivery left behind comes out in the next batch; then the buffer is empty again
+            let mut late = 0;
+            for rec in d.pending() {
+                assert!(rec.si_errno == 5 && unsafe { RAW_NESTED } && got == 5, "C10: a record came out twice, or a record that no delivery produced");
+                late += 1;
+            }
+            assert!(late <= 1, "C10: one delivery yielded two records");
+            if pt == MAXP {
+                all_points = vshim::points_seen() > MAXP;
+            }
+            pt += 1;
         }
-        let mut next = 0;
-        let mut got = 0;
-        vshim::set_mode_nest(1, 1, 0);
-        for rec in d.pending() {
-            let serial = rec.si_errno as usize;
-            assert!(rec.si_signo == SA, "C10: the iterator yielded a signal it was not asked to watch");
-            assert!(serial < 5 || (serial == 5 && unsafe { RAW_NESTED }), "C10: a record was yielded that no delivery so far produced");
-            assert!(serial >= next, "C10: records of one signal came out of delivery order, or one delivery yielded two records");
-            let pay = unsafe { *((&rec as *const siginfo_t as *const u8).add(16) as *const u64) };
-            assert!(rec.si_code == codes[serial] && pay == pays[serial], "C10: a yielded record is not a faithful copy of its delivery's information");
-            next = serial + 1;
-            got += 1;
-            unsafe { RAW_GOT = got };
-        }
-        vshim::set_mode_seq();
-        assert!(got >= 5, "C09: a record whose delivery completed before the batch was not obtained");
-        kani::cover!(window != 1 || (unsafe { RAW_NESTED } && got == 6), "the nested delivery found the slot the consumer had just freed");
-        kani::cover!(window != 0 || (unsafe { RAW_NESTED } && got == 5), "the nested delivery found the buffer full and was discarded");
+        kani::cover!(found_freed_slot, "a nested delivery found the slot the consumer had just freed");
+        kani::cover!(found_full, "a nested delivery found the buffer full and was discarded");
+        kani::cover!(all_points, "the batch has more such boundaries than the enumeration bound (the first 7 are covered: the first two loads)");
         core::mem::forget(d);
     }
 
